@@ -14,9 +14,9 @@ import (
 
 // RenderOpts selects one rendering (layout / spelling variant) of a program model.
 type RenderOpts struct {
-	Noise        *base.Rand // blank lines and ordinary comments between declarations and statements
-	Ugly         *base.Rand // extra intra-line white space at token boundaries
-	RenameLocals bool       // v12 -> w12x
+	Noise        *base.Rand                   // blank lines and ordinary comments between declarations and statements
+	Ugly         *base.Rand                   // extra intra-line white space at token boundaries
+	RenameLocals bool                         // v12 -> w12x
 	Spell        func(l *Line, u *Use) string // override the spelling of a type mention ("" = default)
 	NearMiss     *base.Rand                   // replace every annotation doc line by a near miss (C09)
 }
@@ -176,7 +176,9 @@ func Render(p *Prog, o RenderOpts) map[string]string {
 					if o.NearMiss != nil && strings.HasPrefix(d, " @") {
 						txt, det := nearMiss(d, o.NearMiss)
 						detach = detach || det
-						body = append(body, strings.Repeat("\t", indent)+txt)
+						for _, part := range strings.Split(txt, "\n") {
+							body = append(body, strings.Repeat("\t", indent)+part)
+						}
 						continue
 					}
 					body = append(body, strings.Repeat("\t", indent)+"//"+expandQual(d))
@@ -351,7 +353,10 @@ func nearMiss(d string, r *base.Rand) (text string, detach bool) {
 		kw, rest = ann[:i], ann[i:]
 	}
 	kind := ""
-	switch r.Intn(14) {
+	switch r.Intn(15) {
+	case 14:
+		// a block comment whose inner line is a commented-out annotation (an older version of the declaration kept around)
+		kind, text = "block-comment-with-inner-line-comment", "/*\n// "+ann+"\ntype Old struct{}\n*/"
 	case 12:
 		kind, text = "other-case-then-lowercase-mention", "// @"+strings.ToUpper(kw[1:2])+kw[2:]+rest+" is how the old tool spelled it, we never adopted "+kw
 	case 13:
